@@ -2,10 +2,12 @@
 package main
 
 import (
+	"encoding/hex"
 	"encoding/json"
 	"errors"
 	"fmt"
 	"io"
+	"os"
 	"unicode/utf8"
 
 	"github.com/jf-tech/omniparser"
@@ -120,7 +122,7 @@ type runResult struct {
 
 // drive issues ops on t; ops is extended with Reads until a terminal result (bounded) and a
 // forced tail of >=5 mixed calls after it.
-func drive(r *vh.Rng, t omniparser.Transform, log *vh.Log, ei *vh.ErrIntern, builtin bool, maxReads int) *runResult {
+func drive(r *vh.Rng, t omniparser.Transform, log *vh.Log, ei *vh.ErrIntern, builtin bool, maxReads int, fixed []string) *runResult {
 	res := &runResult{}
 	raws := map[schemahandler.RawRecord]int{}
 	bytesIDs := map[string]int{}
@@ -233,6 +235,12 @@ func drive(r *vh.Rng, t omniparser.Transform, log *vh.Log, ei *vh.ErrIntern, bui
 			}
 		}
 	}
+	if fixed != nil {
+		for _, op := range fixed {
+			doOp(op)
+		}
+		return res
+	}
 	n := r.Between(0, 40)
 	reads := 0
 	for i := 0; i < n; i++ {
@@ -302,6 +310,13 @@ func main() {
 		schemas[i] = ls
 	}
 
+	if o.Replay != "" {
+		replay(o, sum, cw, fixtures, schemas)
+		cw.Flush()
+		sum.CaseFiles = cw.Files
+		sum.Write(o)
+		return
+	}
 	for c := 0; c < total; c++ {
 		ei := vh.NewErrIntern()
 		if r.Chance(0.3) {
@@ -324,7 +339,7 @@ func main() {
 				sum.Fail("mock NewTransform failed", nil, err.Error())
 				continue
 			}
-			res := drive(r, t, log, ei, false, len(script)+3)
+			res := drive(r, t, log, ei, false, len(script)+3, nil)
 			kinds := []string{}
 			for _, st := range script {
 				kinds = append(kinds, st.Kind)
@@ -342,12 +357,13 @@ func main() {
 		in, kind := vh.Mutate(r, fixtures[fi].Gen(r, r.Between(0, 8)))
 		sum.Hist("input:" + kind)
 		sum.Hist("format:" + fixtures[fi].Format)
+		vh.Current(o, map[string]interface{}{"handler": "builtin", "format": fixtures[fi].Format, "schema": fixtures[fi].Schema, "input_hex": fmt.Sprintf("%x", in)})
 		t, log, err := schemas[fi].NewTransform("in", bytesReader(in))
 		if err != nil {
 			sum.Hist("newtransform-error")
 			continue
 		}
-		res := drive(r, t, log, ei, true, len(in)+5)
+		res := drive(r, t, log, ei, true, len(in)+5, nil)
 		desc := map[string]interface{}{"handler": "builtin", "format": fixtures[fi].Format, "schema": fixtures[fi].Schema,
 			"input_hex": fmt.Sprintf("%x", in), "ops": res.Ops}
 		finish(sum, cw, ei, fixtures[fi].Format, desc, log, res, fi)
@@ -521,3 +537,89 @@ func fatalTypeName(fmtIdx int) string {
 }
 
 func mockRawID(m *mockRaw, res *runResult) int { return m.id }
+
+// replay re-runs exactly the case stored in a replay file on the current tree and prints both
+// the operations and what the implementation returned.
+func replay(o *vh.Opts, sum *vh.Summary, cw *vh.CaseWriter, fixtures []vh.Fixture, schemas []*vh.LoggedSchema) {
+	var rf struct {
+		Case struct {
+			Handler  string     `json:"handler"`
+			Format   string     `json:"format"`
+			InputHex string     `json:"input_hex"`
+			Ops      []string   `json:"ops"`
+			Script   []mockStep `json:"script"`
+		} `json:"case"`
+	}
+	b, err := os.ReadFile(o.Replay)
+	if err != nil || json.Unmarshal(b, &rf) != nil {
+		fmt.Println("cannot read replay file", o.Replay, err)
+		os.Exit(2)
+	}
+	ei := vh.NewErrIntern()
+	r := vh.NewRng(o.Seed)
+	c := rf.Case
+	if c.Handler == "builtin" {
+		for fi, f := range fixtures {
+			if f.Format != c.Format || schemas[fi] == nil {
+				continue
+			}
+			in, _ := hex.DecodeString(c.InputHex)
+			t, log, err := schemas[fi].NewTransform("in", bytesReader(in))
+			if err != nil {
+				fmt.Println("NewTransform:", err)
+				return
+			}
+			res := drive(r, t, log, ei, true, 0, c.Ops)
+			desc := map[string]interface{}{"handler": "builtin", "format": f.Format, "schema": f.Schema, "input_hex": c.InputHex, "ops": res.Ops}
+			finish(sum, cw, ei, f.Format, desc, log, res, fi)
+			printRun(res)
+		}
+		return
+	}
+	script := c.Script
+	for i := range script {
+		st := &script[i]
+		switch st.Kind {
+		case "ok":
+			st.raw, st.bytes = &mockRaw{i + 1}, []byte(fmt.Sprintf(`{"i":%d}`, i))
+		case "failed":
+			st.err = errs.ErrTransformFailed("failed")
+		case "plain-cont":
+			st.err = errors.New("plain continuable")
+		case "err-with-bytes":
+			st.raw, st.bytes, st.err = &mockRaw{100 + i}, []byte(`{"bad":1}`), valErr{"value error"}
+		case "ptr-fatal":
+			st.err = &ptrErr{"pointer error"}
+		case "failed-noncont":
+			st.err = errs.ErrTransformFailed("failed, ingester says stop")
+		default:
+			st.err = io.EOF
+		}
+	}
+	log := &vh.Log{FmtIdx: -1}
+	ext := omniparser.Extension{CreateSchemaHandler: func(ctx *schemahandler.CreateCtx) (schemahandler.SchemaHandler, error) {
+		return &mockHandler{mk: func() *mockIngester { return &mockIngester{script: script, log: log} }}, nil
+	}}
+	s, err := omniparser.NewSchema("mock", stringsReader(mockSchema), ext)
+	if err != nil {
+		fmt.Println("NewSchema:", err)
+		return
+	}
+	t, _ := s.NewTransform("mock-input", stringsReader(""), &transformctx.Ctx{})
+	res := drive(r, t, log, ei, false, 0, c.Ops)
+	desc := map[string]interface{}{"handler": "mock", "script": script, "ops": res.Ops}
+	finish(sum, cw, ei, "mock", desc, log, res, -1)
+	printRun(res)
+}
+
+func printRun(res *runResult) {
+	for i, o := range res.Outs {
+		b, _ := json.Marshal(o)
+		fmt.Printf("%3d %s\n", i, b)
+	}
+	if res.Violation != "" {
+		fmt.Println("ORACLE FAILS:", res.Violation)
+	} else {
+		fmt.Println("oracle holds on this case")
+	}
+}
